@@ -18,7 +18,9 @@ run on whatever the store lists at that moment; everything else is the environme
   `controllerOf`, and the revision number of a revision that had none);
 * third parties: editing `spec.lifecycleState` and the paused-by-parent annotation of a revision
   independently of each other (`Op.edit`), deleting a revision (`Op.del`), pausing / un-pausing the
-  ObjectDeployment (`Op.pause`), changing `spec.revisionHistoryLimit` (`Op.limit`).
+  ObjectDeployment (`Op.pause`), changing `spec.revisionHistoryLimit` (`Op.limit`);
+* a revision's objects live inline in its ObjectSet and/or in ObjectSlices its phases reference
+  (`Rev.objects` / `Rev.sliced`; real (Cluster)ObjectSlice objects in the harness's store).
 
 Go side: `harness/C08/zz_verif_c08_hist_test.go` executes the same operations on real
 `corev1alpha1.ObjectSet` objects in an in-memory `client.Client` and runs the REAL
@@ -33,8 +35,10 @@ open Pko.Model.Archive
 inductive Op where
   /-- one pass of the ObjectDeployment controller -/
   | od
-  /-- a new revision is rolled out; `rev0`: it has not reported `status.revision` yet -/
-  | new (rev0 av sp : Bool) (co : Option (List Key)) (obj : List Key)
+  /-- a new revision is rolled out; `rev0`: it has not reported `status.revision` yet; `obj` are its
+  inline objects, `sl` the objects it keeps in ObjectSlices, `sm`: it also references an ObjectSlice
+  that does not exist -/
+  | new (rev0 av sp : Bool) (co : Option (List Key)) (obj : List Key) (sl : List Key := []) (sm : Bool := false)
   /-- the ObjectSet controller of revision `i` reports status -/
   | status (i : Nat) (av sp : Bool) (co : Option (List Key))
   /-- third party: set `spec.lifecycleState` (if `some`) and the annotation (if `some`) of `i` -/
@@ -89,10 +93,11 @@ def setStatus (hi : Int) (i : Nat) (av sp : Bool) (co : Option (List Key)) (r : 
 
 def step (s : State) : Op → State
   | .od => { s with revs := applyWs s.fin (odOut s).1 s.revs }
-  | .new rev0 av sp co obj =>
+  | .new rev0 av sp co obj sl sm =>
     let r : Rev := { id := s.next, rev := if rev0 then 0 else s.hi + 1, available := av,
                      statusPaused := sp, lc := .active, pbp := false, controllerOf := co,
-                     objects := obj, hashMatch := true, terminating := false }
+                     objects := obj, hashMatch := true, terminating := false,
+                     sliced := sl, sliceMissing := sm }
     { s with revs := s.revs.map (fun o => { o with hashMatch := false }) ++ [r],
              next := s.next + 1, hi := if rev0 then s.hi else s.hi + 1 }
   | .status i av sp co =>
